@@ -9,6 +9,15 @@ require (
 	google.golang.org/protobuf v1.36.6
 )
 
-require github.com/google/uuid v1.6.0
+require (
+	github.com/google/uuid v1.6.0
+	github.com/jdx/go-netrc v1.0.0
+)
+
+require (
+	github.com/bufbuild/protocompile v0.14.1 // indirect
+	golang.org/x/crypto v0.37.0 // indirect
+	golang.org/x/sys v0.32.0 // indirect
+)
 
 replace github.com/bufbuild/buf => /repo
